@@ -106,6 +106,13 @@ RECTS = [(2, 1, 2, 2, 0, 0), (2, 1, 2, 0, 0, 0), (2, 2, 2, 1, 0, 0), (2, 1, 3, 0
 PROGRAMS = [('p_rectgeo', r) for r in RECTS]
 
 
+RECTS_THOROUGH = [(3, 3, 3, 0, 0, 2), (4, 2, 2, 1, 1, 1), (2, 3, 4, 2, 2, 2), (3, 1, 4, 0, 3, 2), (1, 3, 3, 1, 0, 1), (3, 3, 2, 2, 0, 0), (4, 1, 3, 0, 0, 2)]
+
+
+def programs(tier):
+    return PROGRAMS + ([('p_rectgeo', r) for r in RECTS_THOROUGH] if tier == 'thorough' else [])
+
+
 def replay(obname, model, result):
     if result['program'] != 'p_rectgeo':
         return None
